@@ -26,17 +26,25 @@ def _configs(m, tier):
     return E.configs(m.ENV, tier)
 
 
+# The reaction to legal / illegal actions (C05, C09) is proved UNDER the invariant "the cached mask is the rule"; the clauses that establish and
+# preserve that invariant carry the id of the property that states them (C04).  A change that breaks C05/C09 only by breaking the mask invariant
+# is therefore invisible to the C05/C09 clauses themselves: the checks of C05 and C09 re-prove those C04 clauses too.
+ALSO = {"C05": ("C04.cached_mask", "C04.mask_is_exactly", "C04.mask_handed_out", "C04.mask_fn_is_the_rule", "C04.inv_"),
+        "C09": ("C04.cached_mask", "C04.mask_is_exactly", "C04.mask_handed_out", "C04.mask_fn_is_the_rule", "C04.inv_")}
+
+
 def run_env(ctx, module, cfg):
     m = importlib.import_module("contracts." + module)
     env = _configs(m, ctx.tier)[cfg]()
+    also = ALSO.get(ctx.prop, ())
     for p in m.problems(env, cfg, ctx.tier):
         p = dict(p)
         title, args, ens = p.pop("title"), p.pop("args"), p.pop("ensures")
         req = p.pop("requires", None)
         props = p.pop("props", None)
-        if props is not None and ctx.prop not in props:
+        if props is not None and ctx.prop not in props and not (also and "C04" in props):
             continue
-        ctx.prove(title, args, ens, req, **p)
+        ctx.prove(title, args, ens, req, also=also, **p)
 
 
 def tasks(prop, tier, modules=None):
